@@ -206,14 +206,24 @@ func renderGenbank(genes []gene, genome string) (text string, proto string) {
 		tr = strings.TrimSuffix(tr, "*")
 		fmt.Fprintf(&b, "     gene            %s\n                     /gene=\"%s\"\n", g.gbLocation(), g.name)
 		fmt.Fprintf(&b, "     CDS             %s\n                     /gene=\"%s\"\n                     /codon_start=%d\n", g.gbLocation(), g.name, g.codonStart)
-		// wrap the translation like a real flat file
-		val := "/translation=\"" + tr + "\""
+		// wrap the translation like a real flat file: the value continues on lines indented to column 22
+		wrapAt := 44 // 58 columns of qualifier text, 14 of them taken by /translation="
+		if len(tr)%2 == 0 { // short genes never reach column 79: wrap every other one early so that continuation lines occur
+			wrapAt = 2 + len(tr)%5
+		}
+		val := tr + "\""
+		first := true
 		for len(val) > 0 {
-			w := 58
+			w := wrapAt
 			if w > len(val) {
 				w = len(val)
 			}
-			fmt.Fprintf(&b, "                     %s\n", val[:w])
+			if first {
+				fmt.Fprintf(&b, "                     /translation=\"%s\n", val[:w])
+				first = false
+			} else {
+				fmt.Fprintf(&b, "                     %s\n", val[:w])
+			}
 			val = val[w:]
 		}
 		pf = append(pf, strings.Join([]string{g.name, g.gbForm, g.protoSegs(), fmt.Sprint(g.codonStart), tr}, "~"))
